@@ -826,8 +826,75 @@ func c14r6(c *Ctx) {
 			ob.Check(startsTrue && bad == "", nil, "the flag returned as `known` at %s is not a conjunction over the whole set (it must start true and only ever be lowered; offending write at %s): a set whose last transaction is pooled but an earlier one is new is reported as known, dropped and not relayed", c.P.Pos(ret.Pos()), bad)
 		}
 	}
+	// the same statement per path, on the exported adders with their helpers expanded (the test may be a library
+	// search over the ids, a helper returning a bare bool, a flag): once any lookup in the id→position map has
+	// missed, `known` is not reported true
+	for _, raw := range c.P.MethodsOf("chain", "Manager") {
+		if !exported(raw) || raw.Type.Results == nil || raw.Type.Results.NumFields() != 2 {
+			continue
+		}
+		res := raw.Obj.Type().(*types.Signature).Results()
+		if !isBasicKind(types.Bool)(res.At(0).Type()) || !ir.IsErrorType(res.At(1).Type()) {
+			continue
+		}
+		f := getChainRoles(c.P).view(raw)
+		if f == nil || !f.MentionsField(f.Body, false, pf.indices) {
+			continue
+		}
+		_, miss := mapTests(f, pf.indices)
+		if len(miss) == 0 {
+			continue
+		}
+		n++
+		c.VisitGraph(f)
+		ob := c.Ob(f, "known-false-after-any-miss", f.Body.Pos())
+		var st []*cfgx.Visit
+		for _, e := range miss {
+			st = append(st, cfgx.StartAfter(e, 0))
+		}
+		bad := ""
+		f.ExploreFeasibleWith(st, cfgx.Walker{}, func(v *cfgx.Visit, val func(types.Object) uint64) {
+			rs, isRet := v.Node.AST.(*ast.ReturnStmt)
+			if !isRet || len(rs.Results) != 2 || bad != "" {
+				return
+			}
+			k := ast.Unparen(rs.Results[0])
+			if tv, ok := f.Info().Types[k]; ok && tv.Value != nil {
+				if tv.Value.String() == "true" {
+					bad = c.P.Pos(rs.Pos())
+				}
+				return
+			}
+			if o := f.ObjOf(k); o != nil {
+				if val(o) == 2 { // known false on this path
+					return
+				}
+				// a flag the engine does not follow here: leave it to the flag rule above
+				if _, isVar := o.(*types.Var); isVar && val(o) == 3 && len(wholeDefs(f, o)) > 0 {
+					onlyLowered := true
+					for _, d := range wholeDefs(f, o) {
+						if d.RHS == nil {
+							continue
+						}
+						if tv, ok := f.Info().Types[d.RHS]; ok && tv.Value != nil {
+							continue
+						}
+						if be, ok := ast.Unparen(d.RHS).(*ast.BinaryExpr); ok && be.Op == token.LAND && (f.ObjOf(be.X) == o || f.ObjOf(be.Y) == o) {
+							continue
+						}
+						onlyLowered = false
+					}
+					if onlyLowered {
+						return
+					}
+				}
+			}
+			bad = c.P.Pos(rs.Pos())
+		})
+		ob.Check(bad == "", nil, "after a transaction of the set was not found in the pool's index, %s can still report the set as known at %s: a set with a new transaction in it is dropped and not relayed", f.Name(), bad)
+	}
 	if n == 0 {
-		ir.Fail("set checker (unexported Manager method returning (bool, error) that consults the pool index) not found")
+		ir.Fail("set checker (a Manager method returning (bool, error) that consults the pool index) not found")
 	}
 }
 
